@@ -219,6 +219,15 @@ func calleeName(c *ssa.CallCommon) string {
 
 func (fr *Frame) isBackEdge(from, to *ssa.BasicBlock) bool { return to.Dominates(from) }
 
+func (fr *Frame) hasBackEdgeInto(b *ssa.BasicBlock) bool {
+	for _, p := range b.Preds {
+		if fr.isBackEdge(p, b) {
+			return true
+		}
+	}
+	return false
+}
+
 func (fr *Frame) loopBody(h *ssa.BasicBlock) map[*ssa.BasicBlock]bool {
 	body := map[*ssa.BasicBlock]bool{h: true}
 	var stack []*ssa.BasicBlock
@@ -298,6 +307,24 @@ func (fr *Frame) runRegion(region map[*ssa.BasicBlock]bool, start *ssa.BasicBloc
 			delete(fr.outs, b)
 			if len(edges) == 0 {
 				continue // unreachable
+			}
+			// tail duplication: a join block that returns is executed once per incoming edge, so that postconditions
+			// are stated over unmerged states (far easier for the solvers than ite-merged arrays)
+			if _, isRet := b.Instrs[len(b.Instrs)-1].(*ssa.Return); isRet && len(edges) > 1 && len(edges) <= 4 && !fr.hasBackEdgeInto(b) {
+				for k, e := range edges {
+					nph := 0
+					for _, in := range b.Instrs {
+						phi, ok := in.(*ssa.Phi)
+						if !ok {
+							break
+						}
+						fr.vals[phi] = fr.val(phi.Edges[edgeIdx[k]])
+						nph++
+					}
+					fr.curBlock = b
+					fr.execBlock(b, nph, e.reach, e.st.clone())
+				}
+				continue
 			}
 			var conds []T
 			var sts []*State
@@ -486,7 +513,7 @@ func (fr *Frame) cutLoop(h *ssa.BasicBlock, phis []*ssa.Phi, reach T, st *State)
 	if li.spec != nil {
 		for _, c := range li.spec.Invariants {
 			env := fr.specEnv(st, fr.entry, h, nil)
-			ex.assume(reach, env.evalBool(c))
+			ex.assumeKind("inv", reach, env.evalBool(c))
 		}
 		ex.cover(fmt.Sprintf("vacuity:loop%d", ord), reach, tTrue, where, "loop head reachable with invariants")
 	}
